@@ -113,6 +113,11 @@ class U:
             data[k] = self.tensor(k, shape, dt)
         return SymTD(data, bs)
 
+    def abstract(self, t, name):
+        """Replace a computed tensor by an opaque one of the same shape/dtype (modular reasoning: what follows may
+        only use the facts that were proved about it and are re-stated with requires)."""
+        return input_tensor(name, tuple(t.shape), t.dtype, self.ctx)
+
     def scalar(self, name, dtype="i"):
         c = z3.Const(self.ctx.prefix + name, sort_of(dtype))
         self.ctx.scalars[self.ctx.prefix + name] = (c, dtype)
@@ -607,3 +612,9 @@ def sum_split_last(u, A, oA, Bt, oB):
     k = z3.Int(f"ksl_{next(u.ctx.fresh_ids)}")
     agree = z3.ForAll([k], z3.Implies(z3.And(k >= 0, k < nB), rA.body(oA, (k,)) == rB.body(oB, (k,))))
     u.ctx.assume(z3.Implies(z3.And(nA == nB + 1, nB >= 0, agree), rA.app(oA) == rB.app(oB) + rA.body(oA, (nB,))))
+
+
+def divmod_hint(u, r, q, M, t):
+    """Instance of lemma divmod.row (tvc/lemmas.py): r = q*M + t, 0 <= t < M  ==>  r mod M = t, r div M = q."""
+    r, q, M, t = zint(r), zint(q), zint(M), zint(t)
+    u.ctx.assume(z3.Implies(z3.And(r == q * M + t, t >= 0, t < M, M >= 1), z3.And(r % M == t, r / M == q)))
